@@ -20,16 +20,17 @@ Definition in_text (c : call) : bool := forallb plain_op (c_script c).
 Definition C30_full_statement : Prop :=
   forall calls, NoDup (map c_id calls) -> forallb in_text calls = true -> no_deadlock calls.
 
-(* the known-deviation class: the code paths of the burst do not respect one lock order *)
+(* the known-deviation class: the code paths of the burst do not respect one lock order.  Since the repair of
+   Properties::get / set / get_all (/repo d9501501) a burst is in the class only if it contains Introspect traffic on
+   an interface whose handlers register / remove objects, or object_server().interface() lookups that close a cycle
+   (C30/Proofs.v: handlers_only bursts are never in it) *)
 Definition Known_C30 (calls : list call) : bool := negb (safe calls).
 
 (* ---- finer classes, used by the line driver to name the finding ---- *)
-Definition is_prop_kind (k : ckind) : bool := match k with KGet | KGetAll | KSetMut | KSetRef => true | _ => false end.
-Definition mutates (sc : list op) : bool := existsb (fun o => match o with OAt | ORemove => true | _ => false end) sc.
 Definition has_lookup (calls : list call) : bool :=
   existsb (fun c => existsb (fun o => match o with OIface _ => true | _ => false end) (c_script c)) calls.
-Definition prop_handler_mutates (calls : list call) : bool :=
-  existsb (fun c => is_prop_kind (c_kind c) && mutates (c_script c)) calls.
+Definition has_introspect (calls : list call) : bool :=
+  existsb (fun c => match c_kind c with KIntro => true | _ => false end) calls.
 
 (* ---- second clause ---- *)
 Definition never_dropped (c : cfg) (msgs : list nat) : Prop :=
